@@ -15,7 +15,7 @@ from ..space import Const, Prod, Seq
 
 ID = "C04"
 LEVEL = "model_checking"
-RULE = ("(a) every string of <= 3 (quick) / <= 4 (thorough) tokens over {<b>, &amp;, &, \", LF, </div>, "
+RULE = ("(a) every string of <= 3 (quick) / <= 4 (thorough) tokens over {<b>, &amp;, &, \", LF, CR LF, CR, </div>, "
         "<!--, e-acute, '} as HTML() child / _repr_html_ result / script+style text / HTML() attribute "
         "value in each emission context; (b) every operand sequence of length <= 5 (quick) / <= 6 "
         "(thorough) over {plain '<&>' plus both quote characters, 'x&' as an instance of a str subclass, HTML('<&>'), HTML(''), 5, object with __str__} holding "
@@ -28,7 +28,7 @@ ASSUMPTIONS = [
     "expected text of a plain operand is its str() escaped once with the text rules (& < >)",
 ]
 
-TOKENS = ["<b>", "&amp;", "&", '"', "\n", "</div>", "<!--", "é", "'"]
+TOKENS = ["<b>", "&amp;", "&", '"', "\n", "</div>", "<!--", "é", "'", "\r\n", "\r"]
 PH = "PH"
 
 
@@ -149,11 +149,11 @@ class Obj:
 def operand(code):
     from htmltools import HTML
     if code == "p1":
-        return "<&>\"'"
+        return "<&>\"'\r\n"
     if code == "p2":
         return LoudOperand("x&")       # a str subclass: contributes its characters, like any str
     if code == "h1":
-        return HTML("<&>")
+        return HTML("<&>\r")
     if code == "h0":
         return HTML("")
     if code == "n":
